@@ -289,13 +289,33 @@ func doHandshake(x *engine.X, ioc *sonic.IO, ws *websocket.Stream, srv *hsServer
 	return res, herr
 }
 
-func c18Body(x *engine.X) {
+func c18Body(x *engine.X) { c18BodyOpt(x, false) }
+
+// c18BodyOpt with onlyFailing explores just the non-upgrading responses without cuts: the part of the
+// handshake space that C13's "a failed handshake leaves the descriptors as they were" needs.
+func c18BodyOpt(x *engine.X, onlyFailing bool) {
 	c13Init()
 	vs := hsVariants()
+	if onlyFailing {
+		var f []hsVariant
+		for _, v := range vs {
+			if !v.ok() {
+				f = append(f, v)
+			}
+		}
+		f = append(f, vs[0]) // the conforming response, which fails when the server closes early
+		vs = f
+	}
 	async := x.Pick(2, "blocking/async handshake") == 1
 	v := vs[x.Pick(len(vs), "response variant")]
-	nfr := x.Pick(3, "piggy-backed frames")
-	prior := x.Deviate(3, "a preceding handshake on the same stream: none/failed/succeeded then dropped")
+	nfr := 0
+	if !onlyFailing {
+		nfr = x.Pick(3, "piggy-backed frames")
+	}
+	prior := 0
+	if !onlyFailing {
+		prior = x.Deviate(3, "a preceding handshake on the same stream: none/failed/succeeded then dropped")
+	}
 	ioc, err := sonic.NewIO()
 	if err != nil {
 		engine.HarnessError("NewIO: %v", err)
